@@ -23,7 +23,7 @@ ASSUMPTIONS = ["numeric option values are decimals with <= 3 places", "the datas
 STUBS = ["matplotlib.pyplot in verif.output and verif.util -> recording stub (symx/mplstub.py)", "verif.input.get_input -> small in-memory inputs"]
 
 
-def run_plot(S, words, axis=None):
+def run_plot(S, words, axis=None, metric="mae"):
     drv = load.modules["verif.driver"]
     inp = load.modules["verif.input"]
     out = load.modules["verif.output"]
@@ -40,7 +40,7 @@ def run_plot(S, words, axis=None):
     inp.get_input = lambda f: files[f]
     out.mpl = stub
     util.mpl = stub
-    argv = ["verif", "A.txt", "B.txt", "-m", "mae", "-f", "out.png"] + (["-x", axis] if axis else []) + list(words)
+    argv = ["verif", "A.txt", "B.txt", "-m", metric, "-f", "out.png"] + (["-x", axis] if axis else []) + list(words)
     code = None
     try:
         try:
@@ -167,6 +167,13 @@ def options(S):
                 any_call(S, c, "ax", "set_%sticks" % axn, lambda a, k: seq_same(S, a[0], tv)),
                 last_index(c, "set_%sticks" % axn) is not None and last_index(c, "set_%slim" % axn) is not None and
                 last_index(c, "set_%sticks" % axn) < last_index(c, "set_%slim" % axn)))
+    # -sp on a diagram whose ideal score is the diagonal, together with -xlim: the ideal line spans the
+    # requested limits as well as the data limits (the recording stub reports data limits (0, 1))
+    la, lv = two("-xlim#3")
+    t["-sp with -xlim on qq"] = (["-sp", "-xlim", la], None,
+                                 lambda c, lv=lv: any_call(S, c, "mpl", "plot", lambda a, k: k.get("label") == "ideal" and S.and_(
+                                     S.same(a[0][0], S.min2(0.0, lv[0])), S.same(a[0][1], S.max2(1.0, lv[1])),
+                                     S.same(a[1][0], S.min2(0.0, lv[0])), S.same(a[1][1], S.max2(1.0, lv[1])))), "qq")
     # annotations along the location axis: 'score key' by default, the requested fields with -af
     t["-a"] = (["-a"], "location", lambda c: len(c.find("mpl", "text")) == 4)
     t["-af"] = (["-a", "-af", "lat,lon,elev,location"], "location",
@@ -181,12 +188,13 @@ def h_single():
         table = options(S)
         names = sorted(table)
         name = names[S.choose("option", len(names))]
-        words, axis, check = table[name]
-        calls, code = run_plot(S, words, axis)
+        words, axis, check = table[name][:3]
+        calls, code = run_plot(S, words, axis, *table[name][3:])
         S.prove("plot-completes", code is None and len(calls.find("mpl", "savefig")) == 1, detail=name)
         S.prove("one-line-per-input-in-order",
                 [c[3].get("label") for c in calls.find("mpl", "plot") if c[3].get("label") not in ("ideal", None, "")][:2] ==
                 (["first", "second run"] if name == "-leg" else ["A.txt", "B.txt"]), detail=name)
+
         S.prove("option-takes-effect=%s" % name, check(calls), detail=name)
     return fn
 
